@@ -191,7 +191,7 @@ func knotNative() core.Action {
 }
 
 func genTotal(t *rapid.T) TotalCase {
-	o := sm.SpecOpts{NativeToo: true, InPlace: true, Fail: 5, GuardFail: 4, Emit: true, UserErrorNode: true, Spin: true}
+	o := sm.SpecOpts{NativeToo: true, InPlace: true, Fail: 5, GuardFail: 4, Emit: true, UserErrorNode: true, Spin: true, IneqBound: true, IneqOdd: true}
 	var a *sm.ASpec
 	if rapid.Bool().Draw(t, "lively") {
 		a = sm.GenLivelySpec(t, o)
